@@ -57,6 +57,19 @@ def cases(tier, seed):
             trials = [rng.randrange(T) for _ in range(rng.randint(1, T + 2))]
         out.append({"cls": mode + "/" + tmode, "factors": facs, "experiments": exps, "mode": mode, "sel": sel,
                     "trials": trials})
+    # appended (round 4): level names as they come out of files - leading / trailing blanks, inner blanks, mixed case,
+    # numeric-looking strings; the experiments carry exactly the declared names
+    for i in range(n // 5):
+        rng = random.Random("c21ws/%s/%d" % (seed, i))
+        nf = rng.randint(1, 3)
+        deco = [lambda x: x + " ", lambda x: " " + x, lambda x: x, lambda x: x.upper(), lambda x: x + "  ", lambda x: x[:1] + " " + x[1:]]
+        facs = [["f%d" % j, [rng.choice(deco)(b) for b in rng.sample(["lo", "hi", "mid", "07", "1.0", "none"], rng.randint(2, 3))]]
+                for j in range(nf)]
+        T = rng.randint(2, 9)
+        exps = [{fn: [rng.choice(lv) for _ in range(T)] for fn, lv in facs} for _ in range(rng.randint(1, 3))]
+        mode = rng.choice(["block", "factors"])
+        out.append({"cls": "blank_names/" + mode, "factors": facs, "experiments": exps, "mode": mode,
+                    "sel": list(range(nf)), "trials": None, "blank_names": True})
     return out
 
 
@@ -117,7 +130,8 @@ def run_case(case):
                 break
             wantf = sum(1 for t in tr if all(e[n][t] == c for n, c in zip(names, combo)))
             wantp = 100.0 * wantf / len(tr)
-            if gnames != names + ["frequency", "proportion"] or gvals[:len(names)] != list(combo):
+            # (cells are read back blank-stripped, so the printed level names are compared blank-stripped too)
+            if gnames != names + ["frequency", "proportion"] or [g.strip() for g in gvals[:len(names)]] != [str(c).strip() for c in combo]:
                 viol.append({"kind": "wrong_combination", "msg": "row %r, expected combination %r of %r" % (row, combo, names)})
                 break
             if freq != wantf or abs(pct - wantp) > 1e-9:
